@@ -39,6 +39,12 @@ CLOSURES = [
     ("k = 3\nF = x => {k}", ["k", "x"], ["(1)"]),
     ("k = 1\ng2 = () => k\nF = () => [g2(), k]", ["k", "g2"], ["()"]),
     ("k = 4\nF = x => (y => (z => x + y + z + k))(1)(2)", ["k", "x", "y", "z"], ["(3)"]),
+    # an inner lambda's parameter has the name of a captured outer variable that is used AFTER it
+    ("k = 10\nF = xs => [map(xs, k => k * 2), k]", ["k", "xs"], ["([1])"]),
+    ("k = 10\nF = xs => [xs via (k => k + 1), k, (k => k)(3), k]", ["k", "xs"], ["([1, 2])"]),
+    ("k = 10\nmk = k => xs => [xs where (k => k > 0), k]\nF = mk(5)", ["k", "xs", "mk"], ["([1])"]),
+    ("k = 10\nF = () => do {\n  g9 = k => k\n  return [g9(1), k]\n}", ["k", "g9"], ["()"]),
+    ("a1 = 1\nb1 = 2\nF = () => [reduce([1], (a1, b1) => a1 + b1, 0), a1, b1]", ["a1", "b1"], ["()"]),
 ]
 
 
